@@ -61,8 +61,10 @@ struct RecBase {
         int i = out->nargs++;
         if constexpr (std::is_enum_v<T> || std::is_integral_v<T>) {
             out->args[i] = (int)v;
+            out->arg_bits[i] = 0;
         } else {
             out->args[i] = (int)v.storage;
+            out->arg_bits[i] = (int8_t)T::Bits;
         }
         std::strncpy(out->arg_types[i], TypeName<T>(), sizeof(out->arg_types[i]) - 1);
     }
